@@ -1433,6 +1433,8 @@ def analyse_mpn_sizes(fn, prop, F, stats):
             e = el["e"]
             if e.get("k") == "call" and (e.get("callee") or "").startswith("__gmpn_") and any(p.get("t") == "mp_size_t" for p in e.get("params", [])):
                 has = True
+            if e.get("k") == "decl" and any(m_ in ("MPN_COPY_INCR", "MPN_COPY_DECR") for m_ in el.get("m", ())):
+                has = True
     if not has:
         return
     E = Fn(fn, {})
@@ -1455,6 +1457,26 @@ def analyse_mpn_sizes(fn, prop, F, stats):
                         rec[2] = sorted(v.tags)
         return orig(e, st)
     E.do_call = do_call
+    orig_elem = E.elem
+
+    def elem(el, st):
+        # the inline forms of MPN_COPY_INCR / MPN_COPY_DECR (this configuration has no native copy routine) start with
+        #   mp_size_t __n = (n) - 1;   - the count is the left operand
+        e = el["e"]
+        if e.get("k") == "decl" and any(m_ in ("MPN_COPY_INCR", "MPN_COPY_DECR") for m_ in el.get("m", ())):
+            for d in e["decls"]:
+                init = _strip(d.get("init")) if isinstance(d.get("init"), dict) else None
+                if d["var"].get("name") == "__n" and isinstance(init, dict) and init.get("k") == "binop" and init["op"] == "-" \
+                        and _strip(init["r"]).get("k") == "int" and _strip(init["r"])["v"] == 1:
+                    v = E.eval(init["l"], st)
+                    mac = [m_ for m_ in el["m"] if m_.startswith("MPN_COPY")][-1]
+                    rec = found.setdefault((el["line"], mac, 2), [0, 0, None])
+                    rec[0] |= v.signs
+                    if v.attained & N and v.tags and not (v.tags & scalar_names):
+                        rec[1] |= N
+                        rec[2] = sorted(v.tags)
+        return orig_elem(el, st)
+    E.elem = elem
     outs = [p for p in fn["params"] if struct_of(p.get("ct")) and "*" in p.get("ct", "") and not p.get("pc")]
     scen = list(scenarios(E, outs[0]["id"])) if outs else [("distinct", {})]
     for label, unify in scen[:4]:
@@ -1493,7 +1515,7 @@ def run_counts(prop="C04", tier="quick"):
         raise AnalysisBroken("R-SIGN.count fixtures: %r" % dict(got))
     st = res["stats"]
     if st["count_arguments"] < 150:
-        raise AnalysisBroken("R-SIGN.count: only %d limb-count arguments found (floor 150; today 379)" % st["count_arguments"])
+        raise AnalysisBroken("R-SIGN.count: only %d limb-count arguments found (floor 150; today 528)" % st["count_arguments"])
     res["stats"] = dict(st)
     res["obligations"] = st["count_arguments"]
     res["undecided"] = st.get("undecided", 0)
